@@ -390,6 +390,9 @@ def run(ctx):
     c04.r4_1(ctx, R, ot)
     ctx.rule("R4.1", "see C04 R4.1 (shared): index discipline of the ordered collections -- an item that is accepted but can never "
                      "come into turn is counted by the lower bound for ever")
+    c04.r4_3(ctx, R, ot)
+    ctx.rule("R4.3", "see C04 R4.3 (shared): the index re-base keeps every live index in one contiguous window -- parked outputs on "
+                     "both sides of the wrap are never yielded although the hints keep counting them")
     import c15
     c15.r15_3(ctx, R, counter)
     ctx.rule("R15.3", "see C15 R15.3 (shared link): the len() observers the hints are built from read the counting fields")
